@@ -30,6 +30,8 @@ pub enum Fail {
     None,
     /// the j-th write call (0-based) returns an error, later calls work again
     ErrOnce(u32),
+    /// like `ErrOnce`, with error kind `mc_core::source::FAULT_KINDS[.1]`
+    ErrOnceKind(u32, u8),
     /// every write call from the j-th on returns an error
     ErrFrom(u32),
     /// the j-th write call returns Ok(0) (write_all turns this into WriteZero)
@@ -86,6 +88,11 @@ impl Write for Sink {
                 st.failures += 1;
                 st.failed_unreported = true;
                 return Err(io::Error::new(io::ErrorKind::Other, "scripted sink failure"));
+            }
+            Fail::ErrOnceKind(j, k) if i == j => {
+                st.failures += 1;
+                st.failed_unreported = true;
+                return Err(io::Error::new(mc_core::source::FAULT_KINDS[k as usize % mc_core::source::FAULT_KINDS.len()], "scripted sink failure"));
             }
             Fail::ErrFrom(j) if i >= j => {
                 st.failures += 1;
@@ -390,7 +397,12 @@ fn oracle(cfg: &Cfg, mode: Mode, w: &mut World, op: &WOp, b: &Before, res: &OpRe
 enum Epilogue {
     FlushThenDrop,
     DropOnly,
+    /// the writer goes out of scope while the thread unwinds from a panic that has nothing to do
+    /// with the writer or the sink (`std::thread::panicking()` is true inside `Drop`)
+    DropWhileUnwinding,
 }
+
+const UNRELATED: &str = "unrelated panic (harness)";
 
 /// Destructive end of a history: what has the sink got once the writer is gone?
 fn epilogue(cfg: &Cfg, w: &mut World, e: Epilogue, just_panicked: bool) -> Problems {
@@ -405,9 +417,17 @@ fn epilogue(cfg: &Cfg, w: &mut World, e: Epilogue, just_panicked: bool) -> Probl
         if e == Epilogue::FlushThenDrop && !post_panic {
             flush_res = Some(writer.flush().map_err(|e| e.to_string()));
         }
+        if e == Epilogue::DropWhileUnwinding {
+            let _w = writer;
+            panic!("{}", UNRELATED);
+        }
         drop(writer);
         flush_res
     });
+    let r = match r {
+        Err((m, _)) if e == Epilogue::DropWhileUnwinding && m == UNRELATED => Ok(None),
+        x => x,
+    };
     let sink = w.sink.borrow();
     match r {
         Err((m, l)) => {
@@ -458,7 +478,7 @@ fn key_of(cfg: &Cfg, w: &World) -> Vec<u8> {
     // sink script state: how close are we to the scripted failure
     let horizon = match cfg.fail {
         Fail::None => 0,
-        Fail::ErrOnce(j) | Fail::ErrFrom(j) | Fail::ZeroOnce(j) | Fail::PanicAt(j) => j + 1,
+        Fail::ErrOnce(j) | Fail::ErrOnceKind(j, _) | Fail::ErrFrom(j) | Fail::ZeroOnce(j) | Fail::PanicAt(j) => j + 1,
     };
     k.push(s.write_calls.min(horizon) as u8);
     k.push(s.interrupts_left as u8);
@@ -613,6 +633,7 @@ fn fail_json(f: Fail) -> Value {
     match f {
         Fail::None => json!(["none", 0]),
         Fail::ErrOnce(j) => json!(["err_once", j]),
+        Fail::ErrOnceKind(j, k) => json!(["err_once_kind", j, k]),
         Fail::ErrFrom(j) => json!(["err_from", j]),
         Fail::ZeroOnce(j) => json!(["zero_once", j]),
         Fail::PanicAt(j) => json!(["panic_at", j]),
@@ -663,7 +684,11 @@ fn expand(cfg: &Cfg, mode: Mode, tier: Tier, hist: &Vec<Step>, report: &mut Repo
     drop(w);
     let mut succ = Vec::new();
     for op in ops {
-        for e in [Epilogue::FlushThenDrop, Epilogue::DropOnly] {
+        for e in [Epilogue::FlushThenDrop, Epilogue::DropOnly, Epilogue::DropWhileUnwinding] {
+            // a sink that is scripted to panic would turn the unwinding drop into a double panic
+            if e == Epilogue::DropWhileUnwinding && matches!(cfg.fail, Fail::PanicAt(_)) {
+                continue;
+            }
             // every sequence of sink answers for the small capacity; at most two departures from
             // "accept everything" per transition for the large ones (the tree is exponential in the
             // number of sink calls otherwise)
@@ -727,6 +752,10 @@ pub fn configs(mode: Mode, tier: Tier) -> Vec<(Cfg, usize)> {
         }
         f.push(Fail::PanicAt(0));
         f.push(Fail::PanicAt(1));
+        // other error kinds: UnexpectedEof, WouldBlock, BrokenPipe, WriteZero
+        for k in [1u8, 2, 4, 13] {
+            f.push(Fail::ErrOnceKind(1, k));
+        }
         f
     };
     for &c in caps {
@@ -789,6 +818,7 @@ pub fn replay_file(v: &Value) -> (bool, String) {
     let fail = match f[0].as_str().unwrap() {
         "none" => Fail::None,
         "err_once" => Fail::ErrOnce(j),
+        "err_once_kind" => Fail::ErrOnceKind(j, v["cfg"]["fail"][2].as_u64().unwrap_or(0) as u8),
         "err_from" => Fail::ErrFrom(j),
         "zero_once" => Fail::ZeroOnce(j),
         _ => Fail::PanicAt(j),
@@ -799,7 +829,13 @@ pub fn replay_file(v: &Value) -> (bool, String) {
         interrupts: v["cfg"]["interrupts"].as_u64().unwrap() as u32,
         short_writes: v["cfg"]["short_writes"].as_bool().unwrap(),
     };
-    let e = if v["epilogue"] == "DropOnly" { Epilogue::DropOnly } else { Epilogue::FlushThenDrop };
+    let e = if v["epilogue"] == "DropOnly" {
+        Epilogue::DropOnly
+    } else if v["epilogue"] == "DropWhileUnwinding" {
+        Epilogue::DropWhileUnwinding
+    } else {
+        Epilogue::FlushThenDrop
+    };
     let hist: Vec<Step> = v["history"].as_array().unwrap().iter().map(|s| Step {
         op: op_from_json(&s["op"]),
         choices: s["choices"].as_array().unwrap().iter().map(|c| (c[0].as_u64().unwrap() as u32, c[1].as_u64().unwrap() as u32)).collect(),
